@@ -128,7 +128,7 @@ def _proj_names(place):
     return tuple(out)
 
 
-def origins(fn, start, through_casts=True, through_calls=None, max_steps=4000):
+def origins(fn, start, through_casts=True, through_calls=None, max_steps=4000, within=None):
     """Backward trace of a value: follows copies, moves, borrows, derefs, field reads (recording field names),
     casts; stops at calls, aggregates, constants, arithmetic, parameters.
     `start` is a local number or an operand.  `through_calls`: optional predicate Call -> index of the argument to
@@ -153,6 +153,11 @@ def origins(fn, start, through_casts=True, through_calls=None, max_steps=4000):
             continue
         seen.add((l, proj))
         dl = d.get(l, [])
+        if within is not None:
+            # flow-sensitive approximation: prefer the definitions inside the given region (e.g. one match arm)
+            inside = [x for x in dl if x.bb in within]
+            if inside:
+                dl = inside
         if not dl:
             o = Origin("undef", idx=l, proj=proj)
             out[o.key()] = o
@@ -375,3 +380,46 @@ def true_side(fn, cond_bb, cond):
     if cond.kind == "call" and cond.call.name.endswith("::ne"):
         val = not val
     return _cfg.bool_edges(fn, cond_bb, val)
+
+
+def matches_variants(prog, fn, sbb, adt):
+    """for a switch on a bool produced by `matches!(x, A | B)` over enum `adt`: (set of variant names for which the
+    bool is true); None if the switch is not of that shape"""
+    t = fn.term(sbb)
+    p = op_place(t["discr"])
+    if p is None or "p" in p:
+        return None
+    l = p["l"]
+    # follow one move
+    wd = whole_defs(fn, l)
+    if len(wd) == 1 and wd[0].kind == "stmt" and wd[0].rv["k"] == "use" and op_place(wd[0].rv["op"]) is not None:
+        l = op_place(wd[0].rv["op"])["l"]
+        wd = whole_defs(fn, l)
+    if len(wd) < 2:
+        return None
+    a = prog.adts.get(adt)
+    if a is None:
+        return None
+    true_vars = set()
+    for d in wd:
+        if d.kind != "stmt" or d.rv["k"] != "use" or "c" not in d.rv["op"]:
+            return None
+        val = d.rv["op"]["c"].get("int")
+        if val not in ("0", "1"):
+            return None
+        if val == "1":
+            got = None
+            for (sb, taken) in guards(fn, d.bb):
+                cd = cond_of(fn, sb)
+                if cd.kind == "discr" and cd.adt == adt:
+                    lab = {v for v, x in fn.term(sb)["arms"]}
+                    names = set()
+                    for v in a["variants"]:
+                        key = v["discr"] if v["discr"] in lab else "otherwise"
+                        if key in taken:
+                            names.add(v["name"])
+                    got = names if got is None else (got & names)
+            if got is None:
+                return None
+            true_vars |= got
+    return true_vars
